@@ -15,6 +15,12 @@ CHECKS = {
  "C05": ("DESIGN.md section 5 C05",
    "Same harness family as C04 with a reference model (list of accepted numbers, newest number) as oracle: the solver decides, for all symbolic inputs within the bounds, that Check succeeds exactly by the sliding-window rule, that accept returns true exactly when its number became the newest, and (through histories in which accept is not invoked) that an unaccepted Check has no effect on later answers.",
    "Bounded as C04; boundary numbers at half the sequence space and sequence spaces of size <= 4 are left unconstrained (the property leaves the numbers nearest the boundary open); C05's own preconditions (maximum >= window, wrapping: maximum+1 >= 2*window, maximum < 2^62) are assumed."),
+ "C06": ("DESIGN.md section 5 C06",
+   "Bounded model checking by SMT of the real packetio.Buffer code: every history of k operations from NewBuffer() (Write with symbolic length 0..70000 and symbolic content, Read with symbolic destination length, Close, limit changes; the operation itself is a solver variable) is compared with a FIFO reference model: order, boundaries, byte contents (at an arbitrary index), short reads, refusal of oversize packets and of writes after Close; the writer's slice is overwritten with arbitrary bytes after Write returns. Ring growth and wrap-around are executed symbolically (copy/make of symbolic length as array terms, no unrolling over bytes).",
+   "Bounded: k operations (3 quick / 5 thorough) from the constructor; integers as mathematical integers with discharged no-overflow obligations; sequential use only (mutex is a no-op, Read called only when it cannot block; concurrency is C08/C19); trusted: go/ssa, engine semantics (validated against native runs), z3 5.1.0 (thorough: also z3 4.8.12)."),
+ "C07": ("DESIGN.md section 5 C07",
+   "Same bounded histories as C06 with the limits as solver variables (count limit 0..6, size limit 0..200000, changed at arbitrary points): after every operation Count() and Size() equal the reference model's number of unread packets and sum of lengths+2, and Write returns ErrFull exactly when the count or size limit would be exceeded, accepting every packet that fits.",
+   "Bounded as C06. The 4 MiB cap without a size limit is not reachable within k <= 5 packets of <= 65535 bytes and is outside this check's bound."),
 }
 
 def main():
